@@ -419,7 +419,7 @@ PROPS["C17"] = {
              "drawn tree positions: remove a member, replace a value by another JSON type (string, empty string, number, bool, null, {}, [], "
              "wrapped in a list / object), replace a number by one of 19 boundary values (-1, 0, 2^32-1, 2^32, +-(2^53+1), 2^63-1, 2^63, "
              "-2^63, -2^63-1, 2^64-1, 2^64, 2^70, 1.5, -0.5, 1.0; numbers whose float64 rounding crosses a bound; numbers float64 cannot hold at all: "
-             "1e400, -1E+999, 1e-400, 10^320, a 310-digit decimal), add an extra member, add an annotation with a malformed or odd key at spec "
+             "1e400, -1E+999, 1e-400, 10^320, a 310-digit decimal), add an extra member, add an annotation with a malformed or odd key (also keys whose lower-case form has another byte length: Kelvin sign, dotted capital I, Ohm, Angstrom, capital sharp s) at spec "
              "or device level, or replace the root. Every document is encoded as JSON and as block YAML (used only if yaml.v3 decodes it "
              "back to the identical tree). Oracle: model.Draft07 - a draft-07 evaluator written for this harness that reads "
              "/repo/schema/schema.json and defs.json at run time. For documents whose annotations are well-formed, ValidateData(json), "
